@@ -11,9 +11,10 @@ import torch
 from pydrobert.torch import command_line as C
 
 from mc.oracles import cli as O
-from checks._c17_common import tok2id, io_flags, distractor_names, save
+from checks._c17_common import tok2id, strip, io_flags, distractor_names, save
 from checks._c17_seams import run_cmd, ok, write, read
 from checks import _c17_other as OT
+from checks import _c17_conv as CV
 
 # creation order is neither id order nor reverse id order
 MENUS = [["u10", "u1", "u2"], ["ab", "a", "a-b"], ["x1", "x", "x_1", "x.1"]]
@@ -44,7 +45,7 @@ def cases_ord(tier, seed):
         base = dict(fam="ord", kind="er", utts=utts, prefix=prefix, suffix=suffix, costs=None, batch=100, per_utt=False,
                     distances=False, id2token=False, replace=None, ignore=None, layout="explicit", out="stdout",
                     swap=False)
-        for per_utt, batch in ((True, 100), (True, 1), (False, 2)):
+        for per_utt, batch in ((True, 100), (True, 1), (False, 2), (True, len(ids))):
             c = dict(base, per_utt=per_utt, batch=batch)
             if fresh["er"] and suffix == "_x.pt" and per_utt:
                 c["fresh"] = True
@@ -63,6 +64,61 @@ def cases_ord(tier, seed):
             yield dict(fam="ord", kind="randmeta", ids=ids, prefix=prefix, n=n, unit="n")
         yield dict(fam="ord", kind="randmeta", ids=ids, prefix=prefix, n=0.5, unit="ratio")
         yield dict(fam="ord", kind="trnmeta", ids=ids, prefix=prefix)
+    yield from cases_big(tier, seed)
+    yield from cases_alias(tier, seed)
+
+
+# ---- late time stamps with small frame shifts: frame indices beyond float32's exact range (2**24), beyond the
+# point where float32 rounding exceeds one frame (2**25), and beyond int32; token ids around the int32 limit
+BIG_BASES = [2 ** 25 + 1, 2 ** 26 + 12345677, 2 ** 31 + 3]
+
+
+def cases_big(tier, seed):
+    for B, (prefix, suffix), big_ids in itertools.product(BIG_BASES, (("", ".pt"), ("p_", ".x")), (False, True)):
+        for fs in (0.0625, 1):
+            utts = [dict(id="u2", wfn="u2", chan="A", segs=[["a", B, B + 3], ["b", B + 5, B + 6]]),
+                    dict(id="p_0", wfn="p_0", chan="A", segs=[["c", 1, 2], ["a", B + 1, B + 2]])]
+            yield dict(fam="ord", kind="ctm", utts=utts, prefix=prefix, suffix=suffix, fs=fs, map=None, map_back=None,
+                       swap=big_ids, rev=big_ids, size="full", big_ids=big_ids)
+        for point in (False, True):
+            segs = [["a", B, B], ["b", B + 7, B + 7]] if point else [["a", B, B + 3], ["b", B + 3, B + 8]]
+            utts = [dict(id="u2", point=point, segs=segs, T=B + 8),
+                    dict(id="p_0", point=point, segs=[["c", 2, 2]] if point else [["c", 0, 2]], T=3)]
+            yield dict(fam="ord", kind="tg", utts=utts, prefix=prefix, suffix=suffix, tgsuf=".TextGrid", fs=0.0625,
+                       len="infer", precision=6, fill=False, method=None, tier=None, swap=False, size="full",
+                       big_ids=big_ids)
+    for prefix, suffix in (("", ".pt"), ("p_", ".x")):
+        for size in ("full", "skip", "feat"):
+            yield dict(fam="ord", kind="trn", utts=[["u2", ["a", "c"]], ["p_0", ["b"]], ["u.x", ["c", "c", "a"]]],
+                       prefix=prefix, suffix=suffix, size=size, swap=False, unk=False, alt=False, big_ids=True)
+        big = 2 ** 31 + 1
+        yield dict(fam="ord", kind="ali", alis=[["u2", [big, big, 5]], ["p_0", [2 ** 24 + 1, 2 ** 24 + 2]]],
+                   prefix=prefix, suffix=suffix, distract=True, feat=True)
+
+
+def cases_alias(tier, seed):
+    """--file-suffix '' (a legal spelling: every name ends with it) on a few cases of every family"""
+    gens = (("trn", CV.cases_trn), ("ctm", CV.cases_ctm), ("tg", CV.cases_tg), ("ali", CV.cases_ali), ("er", OT.cases_er),
+            ("sub", OT.cases_sub), ("stat", OT.cases_stat))
+    for kind, gen in gens:
+        per_kind = {}
+        for c in gen("quick", seed):
+            if c["prefix"] != "p_" or c["suffix"] != ".x":
+                continue
+            sub = c.get("kind", kind)
+            n = max(len(c.get(k, ())) for k in ("utts", "alis", "refs", "lens", "Ts"))
+            if n < 3 and sub != "chunk":
+                continue
+            if per_kind.get(sub, 0) >= (4 if kind == "stat" else 6):
+                continue
+            per_kind[sub] = per_kind.get(sub, 0) + 1
+            for prefix in ("", "p_"):
+                c2 = dict(c, fam="ord", kind=kind, prefix=prefix, suffix="")
+                if kind == "stat":
+                    c2["stat_kind"] = sub
+                c2.pop("real", None)
+                c2.pop("fresh", None)
+                yield c2
 
 
 def _eval_randmeta(env, case):
@@ -83,7 +139,7 @@ def _eval_randmeta(env, case):
         if not ok(res):
             env.raises(api, res, criterion="rand")
             return
-        sel = sorted(x[len(prefix): -len(suffix)] for x in os.listdir(dest))
+        sel = sorted(strip(x, prefix, suffix) for x in os.listdir(dest))
         want_n = min(case["n"], len(ids)) if case["unit"] == "n" else int(len(ids) * case["n"])
         if len(sel) != want_n or not set(sel) <= set(ids):
             env.viol({"api": api, "symptom": "wrong-selection", "criterion": "rand"},
@@ -127,11 +183,15 @@ def _eval_trnmeta(env, case):
         env.ctx.outcome(texts[SUFFIXES[0]])
 
 
+DISPATCH = {"sub": OT.eval_sub, "er": OT.eval_er, "trn": CV.eval_trn, "ctm": CV.eval_ctm, "tg": CV.eval_tg,
+            "ali": CV.eval_ali}
+
+
 def eval_ord(env, case):
-    if case["kind"] == "sub":
-        OT.eval_sub(env, case)
-    elif case["kind"] == "er":
-        OT.eval_er(env, case)
+    if case["kind"] == "stat":
+        OT.eval_stat(env, dict(case, kind=case["stat_kind"]))
+    elif case["kind"] in DISPATCH:
+        DISPATCH[case["kind"]](env, case)
     else:
         env.begin(case)
         {"randmeta": _eval_randmeta, "trnmeta": _eval_trnmeta}[case["kind"]](env, case)
